@@ -1,6 +1,7 @@
 package controllers
 
 import (
+	"github.com/oxia-db/oxia/common/metric"
 	"github.com/oxia-db/oxia/coordinator/model"
 	"github.com/oxia-db/oxia/proto"
 )
@@ -25,6 +26,7 @@ func ZZShardLoop(ne, misses int) {
 	s.nodeFailureOp = make(chan model.Server, chanBufferSize)
 	s.swapNodeOp = make(chan swapNodeRequest, chanBufferSize)
 	s.newTermAndAddFollowerOp = make(chan newTermAndAddFollowerRequest, chanBufferSize)
+	s.termGauge = metric.NewGauge("zz_coordinator_term", "zz", "count", metric.LabelsForShard("zz", 1), func() int64 { return 0 })
 	late := zzServer(ne - 1)
 	for i := 0; i < ne; i++ {
 		rpc.heads[zzServer(i).Internal] = &proto.EntryId{Term: 1, Offset: int64(i % 2)}
